@@ -149,6 +149,14 @@ CtxFollowsLoop == step.ctx # "na" => step.ctx = CtxNow
 (*     MsgCloseBid{BidID of the lease}                                                                              *)
 OwnLeaseOnly == step.argsok
 
+(* Liveness, promised only under fairness: Go's select picks among ready cases at random, so a shutdown  *)
+(* request that stays on offer is taken (weak fairness of that one case); if the calls in flight then    *)
+(* return, the monitor ends (the drain after the loop waits for both calls).                            *)
+Fair == /\ WF_vars(TakeShutdown) /\ WF_vars(Drain) /\ WF_vars(\E v \in Variants : CheckReturn(v))
+        /\ WF_vars(\E e \in {"ok", "err"} : CloseReturn(e))
+LiveSpec == SpecM /\ Fair
+StopLeadsToDone == (stopOffered # {}) ~> (pc = "done")
+
 Props == /\ NoEarlyClose /\ AtMostOneClose /\ StatusMatches /\ CheckOnlyOnTick /\ KeepsMonitoring
          /\ ClosesWhenExhausted /\ CleanStop /\ CtxFollowsLoop /\ OwnLeaseOnly
 =============================================================================
